@@ -21,6 +21,7 @@ type Violation struct {
 	Kind     string          `json:"kind"`           // short class of the failed oracle clause
 	What     string          `json:"what"`           // human text
 	Sig      string          `json:"signature"`      // stable identification used by known_findings matching
+	Group    string          `json:"group,omitempty"` // coarse class, only used to keep the printed list short
 	Replay   json.RawMessage `json:"replay"`         // operation list replayable by bin/check --replay
 	Detail   map[string]any  `json:"detail,omitempty"`
 }
@@ -231,18 +232,23 @@ func (r *Report) Finish(verifDir string) int {
 	}
 	if len(unlisted) > 0 {
 		_ = os.MkdirAll(filepath.Join(verifDir, "replays"), 0o755)
-		maxPrint := 25
+		maxPrint := 40
+		perGroup := map[string]int{}
 		if old, _ := filepath.Glob(filepath.Join(verifDir, "replays", r.Prop+"-*.json")); len(old) > 0 {
 			for _, o := range old {
 				_ = os.Remove(o)
 			}
 		}
-		for i, v := range unlisted {
+		printed := 0
+		for _, v := range unlisted {
 			h := sha256.Sum256([]byte(v.Kind + "|" + v.Sig))
 			p := filepath.Join(verifDir, "replays", fmt.Sprintf("%s-%s.json", r.Prop, hex.EncodeToString(h[:6])))
 			vb, _ := json.MarshalIndent(v, "", " ")
 			_ = os.WriteFile(p, vb, 0o644)
-			if i < maxPrint {
+			g := v.Kind + "|" + v.Group
+			perGroup[g]++
+			if perGroup[g] <= 2 && printed < maxPrint {
+				printed++
 				what := v.What
 				if len(what) > 700 {
 					what = what[:700] + "…"
@@ -250,8 +256,16 @@ func (r *Report) Finish(verifDir string) int {
 				fmt.Printf("VIOLATION property=%s replay=%s kind=%s :: %s\n", r.Prop, p, v.Kind, what)
 			}
 		}
-		if len(unlisted) > maxPrint {
-			fmt.Printf("... and %d more violations (all written under %s/replays)\n", len(unlisted)-maxPrint, verifDir)
+		if len(unlisted) > printed {
+			fmt.Printf("... and %d more violations (all written under %s/replays); by class:\n", len(unlisted)-printed, verifDir)
+			gs := make([]string, 0, len(perGroup))
+			for g := range perGroup {
+				gs = append(gs, g)
+			}
+			sort.Strings(gs)
+			for _, g := range gs {
+				fmt.Printf("    %6d × %s\n", perGroup[g], g)
+			}
 		}
 		return 1
 	}
